@@ -47,6 +47,7 @@ type stats struct {
 	Closed       int                `json:"attempts_all_failed"`
 	Runaway      int                `json:"runaway_attempts"`
 	Aborts       int                `json:"backend_reset_after_accept"`
+	RRRun        int                `json:"round_robin_run_attempts"`
 	ByStrategy   map[string]int     `json:"attempts_by_strategy"`
 	Batches      int                `json:"concurrent_batches"`
 	BatchConns   int                `json:"concurrent_connections"`
@@ -133,6 +134,12 @@ func (l *tryLog) reset() {
 	l.mu.Lock()
 	l.tries, l.runaway = nil, false
 	l.mu.Unlock()
+}
+
+func (l *tryLog) isRunaway() bool {
+	l.mu.Lock()
+	defer l.mu.Unlock()
+	return l.runaway
 }
 
 func (l *tryLog) snapshot() ([]string, bool) {
@@ -559,6 +566,42 @@ func TestBalance(t *testing.T) {
 			}
 			if result == "runaway" {
 				break
+			}
+		}
+		// round-robin: a run of successive connections (each closed again), long enough for the
+		// rotation rule over a window of attempts to apply
+		if sc.Strategy == "round-robin" && !dup && !tl.isRunaway() {
+			for k := 0; k < 2*len(list)+5; k++ {
+				tl.reset()
+				c, settled := connect(t, rig, func() bool { _, r := tl.snapshot(); return r })
+				tries, runaway := tl.snapshot()
+				nextID++
+				result := "closed"
+				if c != nil {
+					result = "open"
+					c.id = nextID
+				}
+				if runaway || !settled {
+					result = "runaway"
+					st.Runaway++
+				}
+				tw.Emit(tracefmt.Rec{"ev": "attempt", "id": nextID, "tries": cpss(tries), "result": result})
+				st.Attempts++
+				st.RRRun++
+				st.ByStrategy[sc.Strategy]++
+				if len(tries) > 1 {
+					st.MultiTry++
+				}
+				if result == "runaway" {
+					break
+				}
+				if c != nil {
+					_ = c.client.Close()
+					literig.WaitClosed(c.be.Conn, 10*time.Second)
+					_ = c.be.Conn.Close()
+					tw.Emit(tracefmt.Rec{"ev": "close", "id": c.id})
+				}
+				tw.Emit(tracefmt.Rec{"ev": "count", "n": waitCount(sm, len(open))})
 			}
 		}
 		for _, c := range open {
